@@ -31,7 +31,7 @@ PROPS = {
     "C04": dict(targets=["Properties_C04.vo"], families=[("screen", 1.0), ("screen_wild", 0.2), ("term", 0.3)], codes=[401]),
     "C08": dict(targets=["Properties_C08.vo"], families=OUTPUT_FAMILIES, codes=[801, 802]),
     "C09": dict(targets=["Properties_C09.vo"], families=OUTPUT_FAMILIES, codes=[901]),
-    "C11": dict(targets=["Properties_C11.vo"], families=[("term", 0.5), ("term_modes", 1.0), ("term_wild", 0.2), ("screen", 0.3)], codes=[1101]),
+    "C11": dict(targets=["Properties_C11.vo"], families=[("term", 0.5), ("term_modes", 1.0), ("term_wild", 0.2), ("screen", 0.3), ("shared_manip", 0.3)], codes=[1101]),
     "C13": dict(targets=["Properties_C13.vo"], families=OUTPUT_FAMILIES, codes=[1301]),
     "C16": dict(targets=["Properties_C16.vo"], families=[("canvas", 1.0), ("canvas_alias", 0.5)], codes=[], extra="c16"),
     "C15": dict(targets=["Properties_C15.vo"], families=[("values", 1.0), ("show", 0.3), ("strobj", 0.2)], codes=[], extra="c15"),
@@ -41,7 +41,7 @@ PROPS = {
     "C07": dict(targets=["Properties_C07.vo"], families=[("garbage", 1.0), ("chunks", 0.5), ("markup_wild", 1.0)], codes=[], extra="c07", expand=True),
     "C20": dict(targets=["Properties_C20.vo"], families=[("chunks", 1.0), ("keyseq", 0.5), ("items", 0.5), ("garbage", 0.5)], codes=[], extra="c20", expand=True),
     "C10": dict(targets=["Properties_C10.vo"], families=[("markup", 1.0), ("markup_respell", 0.5), ("markup_plain", 0.2), ("markup_wild", 0.3)], codes=[], extra="c10"),
-    "C12": dict(targets=["Properties_C12.vo"], families=[("canvas_alias", 0.5), ("strobj", 0.3)], codes=[], special="c12", extra="c16s"),
+    "C12": dict(targets=["Properties_C12.vo"], families=[("canvas_alias", 0.5), ("strobj", 0.3), ("shared_manip", 0.3)], codes=[], special="c12", extra="c16s"),
     "C14": dict(targets=["Properties_C14.vo"], families=[], codes=[], special="c14"),
     "C18": dict(targets=["Properties_C18.vo"], families=[("charset_sweep", 1.0), ("term", 0.5)], codes=[101, 102], extra="c18"),
     "C19": dict(targets=["Properties_C19.vo"], families=[("term", 0.5), ("show_sweep", 1.0), ("show", 0.5)], codes=[102], extra="c19"),
@@ -91,6 +91,8 @@ def gen_family(family, seed, n):
             lines += gen.gen_show_case(r, cid)
         elif family == "strobj":
             lines += gen.gen_strobj_case(r, cid)
+        elif family == "shared_manip":
+            lines += gen.gen_shared_manip_case(r, cid)
         elif family == "show_sweep":
             return gen.gen_show_sweep()
         elif family == "parser_enum":
